@@ -30,7 +30,35 @@ def S(v, w):
 WIDTHS_BIASED = [1, 1, 2, 2, 3, 4, 5, 7, 8, 8, 9, 15, 16, 17, 31, 32, 33, 63, 64, 65, 70]
 
 
+# "big" mode (a seeded minority of runs): widths and input counts beyond the sizes ordinary examples use - past 64 bits,
+# past 64 inputs - so that a threshold inside the library (a table of masks, a float conversion, a chunked ladder) is crossed
+_BIG = [False]
+BIG_WIDTHS = [65, 66, 72, 80, 96, 100, 127, 128, 129, 130, 160, 192, 200, 255, 256, 257]
+BIG_COUNTS = [9, 16, 17, 33, 63, 64, 65, 66, 70, 100, 127, 128, 129, 130]
+
+
+def set_big(flag):
+    _BIG[0] = bool(flag)
+
+
+def is_big():
+    return _BIG[0]
+
+
+def count(rng, lo, hi):
+    """number of inputs / choices of an n-ary block"""
+    if _BIG[0] and rng.random() < 0.6:
+        return rng.choice([c for c in BIG_COUNTS if c >= lo])
+    return rng.randint(lo, hi)
+
+
 def rand_width(rng, lo=1, hi=70):
+    if _BIG[0] and hi >= 12 and rng.random() < 0.6:
+        hi2 = min(hi * 4, 260)
+        c = [w for w in BIG_WIDTHS if max(lo, hi + 1) <= w <= hi2]
+        if c and rng.random() < 0.7:
+            return rng.choice(c)
+        return rng.randint(max(lo, hi + 1), max(hi2, hi + 1))
     if rng.random() < 0.6:
         c = [w for w in WIDTHS_BIASED if lo <= w <= hi]
         if c:
@@ -166,7 +194,7 @@ def _gateN(name, pycls, fn, nmin, nmax=8):
 
     def plan(self, rng, pool):
         a, w = pool.any()
-        n = rng.randint(nmin, nmax)
+        n = count(rng, nmin, nmax)
         ins = [a] + [pool.pick(w)[0] for _ in range(n - 1)]
         return {}, ins, [w]
 
@@ -318,7 +346,7 @@ def _concat(name, pycls, msbf):
     G.tags = ('c08', 'bits')
 
     def plan(self, rng, pool):
-        n = rng.randint(1, 5)
+        n = count(rng, 1, 5)
         ins, tot = [], 0
         for _ in range(n):
             a, w = pool.any(1, 24)
@@ -483,7 +511,7 @@ def _onehotmux(name, pycls):
     G.tags = ('c08', 'sel')
 
     def plan(self, rng, pool):
-        n = rng.randint(1, 5)
+        n = count(rng, 1, 5)
         a, w = pool.any()
         ins = [a] + [pool.pick(w)[0] for _ in range(n - 1)]
         sels = [pool.pick(1)[0] for _ in range(n)]
@@ -519,7 +547,7 @@ class OneHotDemux(Kind):
     tags = ('c08', 'sel')
 
     def plan(self, rng, pool):
-        n = rng.randint(1, 5)
+        n = count(rng, 1, 5)
         a, w = pool.any()
         sels = [pool.pick(1)[0] for _ in range(n)]
         return {'n': n}, sels + [a], [w] * n
@@ -539,7 +567,7 @@ class SelectDefault(Kind):
     tags = ('c08', 'sel', 'antidataflow')
 
     def plan(self, rng, pool):
-        n = rng.randint(1, 5)
+        n = count(rng, 1, 5)
         a, w = pool.any()
         ins = [a] + [pool.pick(w)[0] for _ in range(n - 1)]
         sels = [pool.pick(1)[0] for _ in range(n)]
@@ -564,7 +592,7 @@ class PriorityEncoder(Kind):
     tags = ('c08', 'sel')
 
     def plan(self, rng, pool):
-        n = rng.randint(1, 7)
+        n = count(rng, 1, 7)
         ins = [pool.pick(1)[0] for _ in range(n)]
         return {'inc': rng.random() < 0.5}, ins, [1] * n
 
@@ -590,7 +618,7 @@ class Minterm(Kind):
     tags = ('c08', 'sel')
 
     def plan(self, rng, pool):
-        n = rng.randint(1, 6)
+        n = count(rng, 1, 6)
         ins = [pool.pick(1)[0] for _ in range(n)]
         return {'value': rng.getrandbits(n)}, ins, [1]
 
@@ -699,7 +727,7 @@ class AnyEqual(Kind):
     tags = ('c08', 'cmp')
 
     def plan(self, rng, pool):
-        n = rng.randint(2, 4)
+        n = count(rng, 2, 4)
         a, w = pool.any(1, 8)
         ins = [a] + [pool.pick(w)[0] for _ in range(n - 1)]
         return {}, ins, [1]
